@@ -3,7 +3,7 @@ from vf.extract import FnC, Sel, Mod
 from vf.unit import Unit, Lemma
 from contracts import common as K
 
-P_REC = ('C03', 'C01', 'C07', 'C12', 'C08', 'C15', 'C16')
+P_REC = ('C03', 'C01', 'C07', 'C12', 'C08', 'C15', 'C16', 'C09')
 
 SHIFT_INV = '''
             invariant
